@@ -359,6 +359,15 @@ func CalleeID(info *types.Info, c *ast.CallExpr) string {
 			return "builtin." + b.Name()
 		}
 	}
+	// a call through a func-typed struct field (configuration callbacks):
+	// identified by the field, "<pkg>.field.<Name>"
+	if sel, ok := ast.Unparen(c.Fun).(*ast.SelectorExpr); ok {
+		if s := info.Selections[sel]; s != nil && s.Kind() == types.FieldVal {
+			if v, ok := s.Obj().(*types.Var); ok && v.Pkg() != nil {
+				return Short(v.Pkg().Path()) + ".field." + v.Name()
+			}
+		}
+	}
 	return ""
 }
 
